@@ -546,6 +546,20 @@ def slice_C04(ctx):
                                               alphabets=["ab", "abc", "ab" + ASTRAL, "ab́", "ab\n"],
                                               per_pattern=5, extra_inputs=("",)):
         tuples.append((d, fl, pat, inp, "", None))
+    # metacharacters as ordinary members of classes and as escaped literals: what analyze reads off
+    # the pattern text (the nesting table) must not take them for syntax (own generator state)
+    rng_p = random.Random(ctx.seed * 15487469 + 4)
+    hand_p = ["\\([^)]*\\)", "[()]+", "([)])", "[(]+", "[^(]x", "(?:[)]|a)b", "[|)(]x", "(a[)]b)", "[\\]\\[]+", "\\)\\(", "([(])([)])",
+              "[a)]+|b", "(?:a|[(])+x", "[)]", "([^)]+)\\)"]
+    for p_ in hand_p:
+        for inp in ["", "f(x) + g(y)", "(a)(b)", "a)b))", "((", ")x", "a)b", "[]", "x(a)x"]:
+            tuples.append(("xpath", "", p_, inp, "", "punct"))
+    for _ in range(ctx.n(300, 3000)):
+        al = rng_p.choice(["a()", "a)|", "a[](", "ab){"])
+        g = gen.Gen(rng_p, alphabet=al, feats={"cls", "grp", "alt", "quant", "nc"})
+        _, p_ = g.pattern(rng_p.randint(1, 6))
+        for inp in gen.inputs_for(rng_p, al, 4):
+            tuples.append(("xpath", rng_p.choice(["", "i"]), p_, inp, "", "punct"))
     cases = []
     cid = 0
     for t in tuples:
@@ -842,6 +856,11 @@ def slice_C08(ctx):
                                               alphabets=["ab", "abc", "ab\n", "aAb", "ab1"]):
         tuples.append((d, fl, pat, inp, "[$1]"))
     tuples += precond_stream(ctx, ctx.n(3000, 30000), "[$1]")
+    # a '^' that is not the first term, with mandatory terms after it, matched on a later line
+    for p_ in ["(^abc)", "x*^a", "x*^[0-9]+", "(^a)+b", "\\s*^foo", "(\\n)^a", "$\\n^b+", "(?:x|y)?^ab", "(^a)b{2}", "(?:^a|^b)c", "(x?)^ab"]:
+        for fl in ("m", "", "ms", "s", "im"):
+            for inp in ["x\nabc", "ab\n12", "z\nab", "bar\nfoo", "b\na\nc", "a\nbb\nc", "abc", "x\nab", "\nabb", "q\nac", ""]:
+                tuples.append(("xpath", fl, p_, inp, "<$0>"))
     tuples += bigfollow_stream(ctx, ctx.n(3000, 30000), "[$1]")
     # shapes that trigger each shortcut
     # (pattern text, a text it matches)
@@ -1134,7 +1153,10 @@ def slice_C11(ctx):
     exact = []
     for name, (lower, upper) in CLEAN.items():
         for a, b in zip(lower, upper):
-            for (p_, i_) in ((a, b), (b, a), ("[" + a + "]", b), (a + "+", b + b)):
+            for (p_, i_) in ((a, b), (b, a), ("[" + a + "]", b), (a + "+", b + b),
+                             # a back-reference is a copy of what was captured, letter for letter
+                             ("^(" + a + ")\\1$", a + b), ("^(" + a + b + ")\\1$", a + b + a + a), ("^(.)x\\1$", a + "x" + b),
+                             ("^([" + a + b + "]+)-\\1$", a + b + "-" + b + a)):
                 cases.append(Case(cid, "xpath", "", p_, i_, "", "m", tag="exact"))
                 exact.append(str(cid))
                 cid += 1
